@@ -215,8 +215,9 @@ def run(rep):
     rng = random.Random(rep.seed)
     rep.rule = ("S->I: every import graph TLC enumerates over the listed universes (ordered import lists of <= 2 "
                 "distinct files per grammar, every file reachable, each of the overlapping names defined in any subset "
-                "of the files, references to every name that has a documented target, plus one-extra-reference variants: "
-                "a name no import defines, a qualified rule reference) rendered as .tx files and loaded; I->S: "
+                "of the files, references to every name that has a documented target, plus variants: one extra reference to "
+                "a name no import defines, one extra qualified reference in a documented form, no qualified references "
+                "at all on cyclic graphs) rendered as .tx files and loaded; I->S: "
                 "seeded-random trees of 3-6 files in 4 directories with self/repeated imports, completed and judged by TLC. "
                 "Non-trivial: a variant, or a case where some reference resolves into another file; distinct by content.")
     rep.assumptions = [
@@ -231,8 +232,8 @@ def run(rep):
     findings = common.open_findings(PID)
     devs = {f["id"]: f["deviation"] for f in findings}
     plan = [("mf", "ABC", 2), ("mfg", "AB", 4), ("mgh", "AB", 4), ("mfe", "A", 4)] if quick else \
-           [("m", "ABC", 1), ("mf", "ABC", 2), ("mfg", "ABC", 8), ("mgh", "ABC", 8), ("mfe", "AB", 8),
-            ("mfgh", "A", 8), ("mfeg", "A", 8), ("mfgk", "A", 8)]
+           [("m", "ABC", 1), ("mf", "ABC", 2), ("mfg", "AB", 6), ("mgh", "AB", 6), ("mfe", "AB", 8),
+            ("mfgh", "A", 8), ("mfeg", "A", 12), ("mfgk", "A", 8)]
     if os.environ.get("VT_C25_PLAN"):      # development aid: "mf:AB:2,mfg:A:3"
         plan = [(a, b, int(c)) for a, b, c in (x.split(":") for x in os.environ["VT_C25_PLAN"].split(","))]
     pending = []
